@@ -1,7 +1,8 @@
 (* Property C01 — longest match wins; ties broken by priority (maximal munch).
    This file contains only the final statement; the proof is in Engine/SpecProofs.v. *)
 From Coq Require Import List NArith.
-From LogosV Require Import Engine.Model Engine.Cert Engine.GraphBuild Engine.CertProofs Engine.SpecProofs Engine.StopProofs Engine.LexProofs Engine.BuildProofs Engine.GsimProofs Engine.ByteClass Engine.ByteClassProofs Engine.Dedup Engine.DedupProofs Engine.DedupBuild.
+From LogosV Require Import Engine.Model Engine.Cert Engine.GraphBuild Engine.CertProofs Engine.SpecProofs Engine.StopProofs Engine.LexProofs Engine.BuildProofs Engine.GsimProofs Engine.ByteClass Engine.ByteClassProofs Engine.Dedup Engine.DedupProofs Engine.DedupBuild Engine.Prog Engine.ProgProofs.
+From Coq Require Import FMapPositive.
 Local Open Scope N_scope.
 
 (* For every DFA d and graph g related by a valid certificate, every input w and every attempt
@@ -82,3 +83,14 @@ Theorem C01_full_construction_correct : forall d g R,
   forall start rest, bytes_ok rest -> rest <> nil ->
   exists off, attempt_ref g false start rest = Acted (scan d (d_start d) rest start None) off.
 Proof. exact full_construction_correct. Qed.
+
+(* End to end, from the raw DFA to the emitted code: when the modelled construction is related to the
+   captured graph and the program parsed from the emitted code is the program of that graph, running
+   the emitted program records the DFA-level maximal munch. *)
+Theorem C01_emitted_code_maximal_munch : forall U d g R p,
+  build_side d = true -> gsim_ok (dedup (build d)) g R = true ->
+  wf_graph g = true -> prog_ok g p = true ->
+  forall start rest, bytes_ok rest -> rest <> nil ->
+  exists off, fst (attempt_prog U p (PositiveMap.cardinal (g_states g)) false start rest)
+              = Acted (scan d (d_start d) rest start None) off.
+Proof. exact emitted_code_maximal_munch. Qed.
